@@ -13,7 +13,7 @@ Fail-closed: every shape not listed raises TranslateError.  Nothing of /repo is 
 import ast
 from decimal import Decimal
 from fractions import Fraction
-from pycoq import parse_file, find_class, find_func, TranslateError, fail, dataclass_fields, decorators
+from pycoq import parse_file, find_class, find_func, TranslateError, fail, dataclass_fields, decorators, norm_function
 
 SRC_PAULI = 'src/qce_circuit/addon_stim/noise_factories/factory_pauli_noise.py'
 SRC_MEAS = 'src/qce_circuit/addon_stim/noise_factories/factory_measurement_noise.py'
@@ -91,8 +91,11 @@ class RealExpr:
         fail(n, "real expression shape")
 
 
-def gen_formula(src, cls):
+def gen_formula(src, cls, module=None):
     fn = find_func(cls, 'get_pauli_error')
+    # calls of private single-`return` helpers (`_clamp(x)` for `min(max(x, 0.0), 1.0)`) are inlined and annotations dropped
+    # (pycoq N6, N1); the `let`s of the body are kept as written (no substitution of locals: they are part of the emitted term)
+    fn = norm_function(fn, module=module, cls=cls, guards=False, accumulate=False, single_use=False)
     if 'staticmethod' not in decorators(fn):
         fail(fn, "get_pauli_error is expected to be a staticmethod")
     args = [a.arg for a in fn.args.args]
@@ -140,14 +143,17 @@ def init_string_attrs(cls, want):
     for p, d in zip(params[len(params) - len(defaults):], defaults):
         dmap[p] = str_const(d)
     out = {}
+    fn = norm_function(fn, guards=False, accumulate=False, single_use=False, helpers=False)     # `self._x: str = v` -> `self._x = v` (N1)
     for s in skip_doc(fn.body):
-        if not (isinstance(s, ast.AnnAssign) and isinstance(s.target, ast.Attribute) and isinstance(s.target.value, ast.Name)
-                and s.target.value.id == 'self' and s.value is not None):
+        tgt = s.targets[0] if isinstance(s, ast.Assign) and len(s.targets) == 1 else None
+        if not (isinstance(tgt, ast.Attribute) and isinstance(tgt.value, ast.Name) and tgt.value.id == 'self'):
             fail(s, "statement in __init__")
+        if tgt.attr in out:
+            fail(s, "attribute assigned twice in __init__")
         if isinstance(s.value, ast.Name) and s.value.id in params:
-            out[s.target.attr] = ('param', params.index(s.value.id), dmap.get(s.value.id))
+            out[tgt.attr] = ('param', params.index(s.value.id), dmap.get(s.value.id))
         else:
-            out[s.target.attr] = ('lit', str_const(s.value))
+            out[tgt.attr] = ('lit', str_const(s.value))
     if set(out) != set(want):
         fail(fn, f"attributes set by __init__ changed: {sorted(out)} (expected {sorted(want)})")
     return out
@@ -181,12 +187,21 @@ def is_method_call(n, recv, meth):
     return isinstance(f, ast.Attribute) and f.attr == meth and isinstance(f.value, ast.Name) and f.value.id == recv
 
 
-def gen_pauli_wiring(cls, attrs):
+def local_assigns(nodes, name):
+    """`name = <value>` statements (after N1 every annotated local assignment is one) among `nodes`"""
+    return [s for s in nodes if isinstance(s, ast.Assign) and len(s.targets) == 1 and isinstance(s.targets[0], ast.Name)
+            and s.targets[0].id == name]
+
+
+def gen_pauli_wiring(cls, attrs, module=None):
     """The parts of PauliAdditiveCircuitNoiseFactory.construct the model relies on."""
     fn = find_func(cls, 'construct')
+    # a per-qubit body extracted into a private method of the class is inlined again (pycoq N6); annotations dropped (N1).
+    # Locals are NOT substituted: the wiring below is read off the named locals.
+    fn = norm_function(fn, module=module, cls=cls, guards=False, accumulate=False, single_use=False)
     out = []
     # 1. max_duration = max([settings.get_operation_duration(instruction.name) for instruction in instructions], default=0)
-    assigns = [s for s in ast.walk(fn) if isinstance(s, ast.AnnAssign) and isinstance(s.target, ast.Name) and s.target.id == 'max_duration']
+    assigns = local_assigns(ast.walk(fn), 'max_duration')
     if len(assigns) != 1:
         fail(fn, "expected exactly one assignment to max_duration")
     v = assigns[0].value
@@ -218,7 +233,7 @@ def gen_pauli_wiring(cls, attrs):
             and isinstance(loops[0].target, ast.Name) and loops[0].target.id == 'instructions'):
         fail(it, "block loop iterator")
     # 3. qubit_targets = extract_all_targets(circuit=circuit)
-    qa = [s for s in fn.body if isinstance(s, ast.AnnAssign) and isinstance(s.target, ast.Name) and s.target.id == 'qubit_targets']
+    qa = local_assigns(fn.body, 'qubit_targets')
     if not (len(qa) == 1 and isinstance(qa[0].value, ast.Call) and isinstance(qa[0].value.func, ast.Name)
             and qa[0].value.func.id == 'extract_all_targets'):
         fail(fn, "qubit_targets assignment")
@@ -240,7 +255,7 @@ def gen_pauli_wiring(cls, attrs):
         if not (isinstance(a, ast.Attribute) and isinstance(a.value, ast.Name) and a.value.id == 'noise_setting'):
             fail(a, f"{k} argument of get_pauli_error call")
         fields[k] = a.attr
-    ns = [s for s in ast.walk(fn) if isinstance(s, ast.AnnAssign) and isinstance(s.target, ast.Name) and s.target.id == 'noise_setting']
+    ns = local_assigns(ast.walk(fn), 'noise_setting')
     if not (len(ns) == 1 and isinstance(ns[0].value, ast.Call) and is_method_call(ns[0].value, 'settings', 'get_noise_settings')
             and len(ns[0].value.keywords) == 1 and isinstance(ns[0].value.keywords[0].value, ast.Name)
             and ns[0].value.keywords[0].value.id == 'qubit_target'):
@@ -260,8 +275,11 @@ def gen_pauli_wiring(cls, attrs):
     return out
 
 
-def gen_meas_wiring(cls):
+def gen_meas_wiring(cls, module=None):
     fn = find_func(cls, 'construct')
+    # `result = []; for x in it: result.append(e); return result` and `return [e for x in it]` are read as the same thing
+    # (pycoq N5 + N4); private helpers inlined (N6), annotations dropped (N1)
+    fn = norm_function(fn, module=module, cls=cls, guards=False)
     ci = walk_calls(fn, lambda n: isinstance(n.func, ast.Attribute) and n.func.attr == 'CircuitInstruction')
     if len(ci) != 1 or ci[0].keywords or len(ci[0].args) != 3:
         fail(fn, "measurement instruction shape")
@@ -273,8 +291,17 @@ def gen_meas_wiring(cls):
             and len(e.value.args) == 1 and isinstance(e.value.args[0], ast.Name) and e.value.args[0].id == 'target_index'):
         fail(e, "measurement error argument")
     loops = [s for s in fn.body if isinstance(s, ast.For)]
-    if not (len(loops) == 1 and isinstance(loops[0].target, ast.Name) and loops[0].target.id == 'target_index'
-            and isinstance(loops[0].iter, ast.Name) and loops[0].iter.id == 'qubit_targets'):
+    comps = [x for x in ast.walk(fn) if isinstance(x, (ast.ListComp, ast.GeneratorExp, ast.SetComp, ast.DictComp))]
+    body = skip_doc(fn.body)
+    as_loop = (len(loops) == 1 and not comps and isinstance(loops[0].target, ast.Name) and loops[0].target.id == 'target_index'
+               and isinstance(loops[0].iter, ast.Name) and loops[0].iter.id == 'qubit_targets')
+    # normal form of the accumulate loop: the function returns `[<the instruction> for target_index in qubit_targets]`
+    as_comp = (not loops and len(comps) == 1 and isinstance(comps[0], ast.ListComp) and len(comps[0].generators) == 1
+               and not comps[0].generators[0].ifs and not comps[0].generators[0].is_async
+               and isinstance(comps[0].generators[0].target, ast.Name) and comps[0].generators[0].target.id == 'target_index'
+               and isinstance(comps[0].generators[0].iter, ast.Name) and comps[0].generators[0].iter.id == 'qubit_targets'
+               and comps[0].elt is ci[0] and body and isinstance(body[-1], ast.Return) and body[-1].value is comps[0])
+    if not (as_loop or as_comp):
         fail(fn, "measurement target loop")
     return ["(* MeasurementNoiseDresserFactory.construct: one instruction per target, argument get_noise_settings(target).<field> *)",
             f"Definition meas_call_arg (p : QubitNoiseModelParameters) : string := qp_{e.attr} p."]
@@ -415,10 +442,10 @@ def generate(repo):
         if needle not in txt.replace('(i, instruction)', 'i, instruction'):
             raise TranslateError(f"StimNoiseDresserFactoryManager.construct changed: {needle!r} not found")
     out.append("")
-    out += gen_meas_wiring(mc)
-    out += gen_pauli_wiring(pc, p_attrs)
+    out += gen_meas_wiring(mc, t_m)
+    out += gen_pauli_wiring(pc, p_attrs, t_p)
     out.append("")
     out.append("Local Open Scope R_scope.")
     out.append("(* PauliAdditiveCircuitNoiseFactory.get_pauli_error; float literals as exact rationals, np.exp as the real exponential *)")
-    out.append(gen_formula(src_p, pc))
+    out.append(gen_formula(src_p, pc, t_p))
     return "\n".join(out)
